@@ -5,7 +5,7 @@ CONSTANTS
   SlModes = {TRUE}
   Bug = "none"
   Faults = {"none", "f1", "f2"}
-  MaxOps = 4
+  MaxOps = 3
   MaxSess = 2
   MaxReq = 2
   MaxIdle = 1
